@@ -66,6 +66,9 @@ func genC18(r *Rnd, t Tier) *Case {
 		}
 		spec.ReqCtx = pick(r, ACtxBackground, ACtxTODO, ACtxCancel, ACtxValues, ACtxDeadline, ACtxValues)
 		spec.ExecCtx = pick(r, ACtxNone, ACtxBackground, ACtxCancel, ACtxValues, ACtxNone)
+		if spec.BodySize > 0 && r.P(0.35) {
+			spec.UploadDelay = time.Duration(r.Range(1, 8)) * unit
+		}
 	} else {
 		spec.Proto = pick(r, "grpc-client", "grpc-client", "grpc-server", "grpc-tap")
 		spec.ReqCtx = pick(r, ACtxBackground, ACtxCancel, ACtxValues, ACtxDeadline, ACtxValues)
@@ -183,6 +186,9 @@ func checkC18(c *checkCtx) {
 		c.cov("c18.attempts")
 		if a.recv.B != 0 {
 			mask := a.recv.B
+			if mask == PBody && a.end != nil && a.end.Err != nil && (errors.Is(a.end.Err, context.Canceled) || errors.Is(a.end.Err, context.DeadlineExceeded)) && spec.UploadDelay > 0 {
+				continue // the upload was cut short by a cancellation of the attempt
+			}
 			sig := problemText(mask)
 			c.fail("C18.fidelity", sig, fmt.Sprintf("attempt %d reached the %s with a wrong %s %s (request context kind %d, executor context kind %d)", a.idx, map[bool]string{true: "server", false: "invoker/handler"}[spec.Proto == "http"], problemText(mask), a.recv.Str, spec.ReqCtx, spec.ExecCtx))
 			return
